@@ -27,6 +27,7 @@
 
 #include <fcntl.h>
 #include <signal.h>
+#include <sys/wait.h>
 #include <sys/time.h>
 #include <sys/select.h>
 
@@ -389,6 +390,26 @@ static int on_io(Tickit *t, TickitEventFlags flags, void *info, void *user)
 }
 
 /* an instant of the harness's clock (ms since its start) as the library's clock shows it */
+/* process watches of the toplevel instance (tickit_watch_process, default event loop) on children of the harness's own:
+ * one that has exited already when the watch is made (a zombie: waitid(WNOWAIT) has seen it go), or one that runs until the
+ * harness kills it - after the watch has been cancelled or the instance destroyed, never while the watch exists */
+struct prbeh { int pending; int fired; int live; pid_t pid; void *watch; };
+#define MAXPR 16
+static struct prbeh PRBEH[MAXPR]; static int nPRBEH;
+static int on_proc(Tickit *t, TickitEventFlags flags, void *info, void *user)
+{
+  (void)t; (void)info;
+  if(!(flags & TICKIT_EV_FIRE)) return 0;
+  struct prbeh *b = user;
+  b->pending = 0; b->fired = 1;
+  return 0;
+}
+static void proc_reap(struct prbeh *b)
+{
+  if(!b->live) return;
+  kill(b->pid, SIGKILL); waitpid(b->pid, NULL, 0); b->live = 0;
+}
+
 static struct timeval clock_at(long ms)
 {
   return (struct timeval){ .tv_sec = 1000000 + ms / 1000, .tv_usec = (ms % 1000) * 1000 };
@@ -476,6 +497,7 @@ static void engine_begin(void)
   memset(TBEH, 0, sizeof TBEH); nTBEH = 0;
   memset(WBEH, 0, sizeof WBEH); nWBEH = 0;
   memset(IOBEH, 0, sizeof IOBEH); nIOBEH = 0;
+  memset(PRBEH, 0, sizeof PRBEH); nPRBEH = 0;
   in_fd[0] = in_fd[1] = -1; fake_ms = 0;
   TK = NULL; tk_refs = 0;
   memset(X, 0, sizeof X); memset(Xref, 0, sizeof Xref); nX = 0;
@@ -617,6 +639,28 @@ static void engine_op(int argc, char **argv)
     if(!usable(i)) { obs("skip"); dump(); return; }
     tickit_window_set_geometry(W[i], (TickitRect){ .top = A(2), .left = A(3), .lines = A(4), .cols = A(5) });
     obs("ok"); dump(); return;
+  }
+  if(strcmp(op, "kids") == 0 && argc == 3) {
+    /* tickit_window_get_children(win, array of exactly N slots, N): N below, at and above the number of children. The
+     * array is heap memory of N pointers (one more byte is a redzone hit); for N = 0 one slot is handed out, the length
+     * given is 0 and the slot must stay as it was */
+    int i = A(1); long n = atol(argv[2]);
+    if(!usable(i) || n < 0 || n > 64) { obs("skip"); dump(); return; }
+    static int guardobj;
+    TickitWindow *guard = (TickitWindow *)&guardobj;
+    size_t have = n ? (size_t)n : 1;
+    TickitWindow **cs = malloc(have * sizeof *cs);
+    for(size_t k = 0; k < have; k++) cs[k] = guard;
+    size_t ret = tickit_window_get_children(W[i], cs, (size_t)n);
+    obs("ret=%zu count=%zu slots=", ret, tickit_window_children(W[i]));
+    for(long k = 0; k < n; k++) {
+      if(cs[k] == guard) obs("%s-", k ? "," : "");
+      else { int j = widx(cs[k]); if(j < 0) obs("%s?", k ? "," : ""); else obs("%s%d", k ? "," : "", j); }
+    }
+    if(!n) obs("-");
+    obs(" behind=%s", (n == 0 && cs[0] != guard) ? "canary-overwritten" : "untouched");
+    free(cs);
+    dump(); return;
   }
   if(strcmp(op, "focus") == 0) {
     int i = A(1);
@@ -894,6 +938,32 @@ static void engine_op(int argc, char **argv)
     tickit_watch_cancel(TK, WBEH[k].watch);
     obs("ok"); dump(); return;
   }
+  if(strcmp(op, "iproc") == 0 && argc == 2) {
+    if(!heldi() || nPRBEH >= MAXPR) { obs("skip"); dump(); return; }
+    int exited = A(1) != 0;
+    fflush(NULL);
+    pid_t pid = fork();
+    if(pid < 0) { obs("bad-op"); return; }
+    if(pid == 0) {
+      /* the child keeps none of the harness's descriptors (a harness that dies must not leave its pipes held open) */
+      for(int fd = 0; fd < 256; fd++) close(fd);
+      if(exited) _exit(7);
+      alarm(20); for(;;) pause();
+    }
+    if(exited) { siginfo_t si; memset(&si, 0, sizeof si); if(waitid(P_PID, pid, &si, WEXITED | WNOWAIT) != 0) { obs("bad-op"); return; } }
+    struct prbeh *b = &PRBEH[nPRBEH++];
+    b->pending = 1; b->fired = 0; b->live = !exited; b->pid = pid;
+    b->watch = tickit_watch_process(TK, pid, 0, on_proc, b);
+    obs("ok"); dump(); return;
+  }
+  if(strcmp(op, "iproccancel") == 0 && argc == 2) {
+    int k = A(1);
+    if(!heldi() || k < 0 || k >= nPRBEH || !PRBEH[k].pending) { obs("skip"); dump(); return; }
+    PRBEH[k].pending = 0;
+    tickit_watch_cancel(TK, PRBEH[k].watch);
+    proc_reap(&PRBEH[k]);
+    obs("ok"); dump(); return;
+  }
   if(strcmp(op, "iio") == 0 && argc >= 2) {
     struct act acts[MAXA]; int n = 0;
     for(int k = 2; k < argc && n < MAXA; k++) { acts[n].kind = argv[k][0]; acts[n].arg = atoi(argv[k] + 1); n++; }
@@ -914,6 +984,8 @@ static void engine_op(int argc, char **argv)
      * calls run does not show in the window tree (Model/LifeTop.lean) */
     tickit_window_flush(tickit_get_rootwin(TK));
     tickit_tick(TK, TICKIT_RUN_NOHANG | TICKIT_RUN_NOSETUP);
+    /* the process watches that fired in this turn, after everything else (Model/LifeProc.lean) */
+    for(int k = 0; k < nPRBEH; k++) if(PRBEH[k].fired) { PRBEH[k].fired = 0; obs("C%d ", k); }
     obs("ok"); dump(); return;
   }
   /* ---- strings */
@@ -1043,6 +1115,7 @@ static void engine_op(int argc, char **argv)
   }
   if(strcmp(op, "end") == 0) {
     drop_all();
+    for(int k = 0; k < nPRBEH; k++) proc_reap(&PRBEH[k]);
     obs("end");
     dump();
     scrub_stack();
